@@ -43,3 +43,10 @@ Theorem C23_pinned_fmmu_refuted :
   let s := fold_left fstep_pinned [PCreate; PJoinAlloc 1 7; PCreatorWrite; PJoinAlloc 2 7] {| used := []; held := [] |} in
   map snd (held s) = [7; 7; 1].
 Proof. exact pinned_refuted. Qed.
+
+(* a removal that is not excluded from allocations (read and write of the map byte as two steps) hands one window to two processes *)
+Theorem C23_split_release_refuted :
+  let s := fold_left sstep [SAlloc 0 9; SRelRead 0; SAlloc 1 10; SRelWrite 0; SAlloc 2 10] {| s_f := {| used := []; held := [] |}; s_snap := [] |} in
+  ~ NoDup (map snd (held (s_f s))).
+Proof. exact split_release_refuted. Qed.
+Print Assumptions C23_split_release_refuted.
